@@ -162,6 +162,24 @@ theorem collect_closed {H : Heap} {a : ActionIn} {s : Snapshot} (hB : Benign H)
           rw [e] at h1
           exact absurd h1 (hW wi hwi)
 
+/-- the class-name read of `self` is guarded in the source: it fails no frame, whatever the object bound to `self` does -/
+theorem selfClassFailure_none (H : Heap) (fs : List FrameIn) : selfClassFailure H fs = none := by
+  have hg : selfClassGuarded = true := by decide
+  induction fs with
+  | nil => rfl
+  | cons f fs ih =>
+    simp only [selfClassFailure]
+    cases selfOf H f.locals with
+    | none => exact ih
+    | some o =>
+      simp only
+      cases (H.obj o).clsName with
+      | ok n => exact ih
+      | raises m => simp only [hg, if_true]; exact ih
+
+theorem snapshotAction_eq_collect (H : Heap) (a : ActionIn) : snapshotAction H a = collect H a := by
+  unfold snapshotAction; rw [selfClassFailure_none]
+
 /-- **total**: every snapshot action produces its snapshot, on every heap (the guards make every heap benign) -/
 theorem collect_total_all (H : Heap) (a : ActionIn) : ∃ s, collect H a = .ok s := collect_total (benign_all H) a
 
